@@ -69,6 +69,45 @@ def handleC12 (op : String) (input impl : Json) : Except String Json := do
       | .ok r => canonRepo r == canonRepo afterRetry
       | _ => bf "retryErr"
     return reply mj agree viol
+  | "prune-readfault" =>
+    -- prune while the object store fails ONE read of ONE commit object once, then once more on the
+    -- healthy store. The failing read reports an input/output error, or (faultKind "absent") that
+    -- the commit is not stored. Whatever the first run reports, nothing that a ref reaches may be
+    -- lost and nothing may be created; a run that reports success must have removed everything no
+    -- ref reaches; the second run must complete.
+    -- "Reaches": through reads that were answered. A ref whose target was reported absent is, for
+    -- all prune can tell, a dangling ref: what only such a ref reaches MAY go (lower bound: the
+    -- other refs), what no ref at all reaches MUST go (upper bound: all refs). After an
+    -- input/output error, or when the fault was not delivered, both bounds are all the refs.
+    let before ← prepoOf (← fld input "before")
+    let refs ← asNatList (fldD input "refs" (Json.arr #[]))
+    let kind := (fldD input "faultKind" (Json.str "")).getStr?.toOption.getD ""
+    let fc := (fldD input "faultCommit" (jNat 0)).getNat?.toOption.getD 0
+    let m := prune Facts.pruneSearchChecked before refs
+    let mj := jRes (fun r => Json.str (canonRepo r)) m
+    if resClass impl == "panic" then return reply mj false ["completes-without-crashing"]
+    if resClass impl != "ok" then return reply mj false ["harness-setup-failed"]
+    let v := fldD impl "val" Json.null
+    let bf := fun (k : String) => (fldD v k (Json.bool false)).getBool?.toOption.getD false
+    let after ← prepoOf (← fld v "after")
+    let afterRetry ← prepoOf (← fld v "afterRetry")
+    let low := if kind == "absent" && bf "faultHit" then refs.filter (· != fc) else refs
+    let judge := fun (a : PRepo) (complete : Bool) =>
+      (pruneVerdict before a low).filter safetyClauses.contains ++
+      (if complete then (pruneVerdict before a refs).filter (fun c => !safetyClauses.contains c) else [])
+    let mLow := prune Facts.pruneSearchChecked before low
+    let viol :=
+      judge after (!bf "pruneErr") ++
+      (if bf "pruneErr" && !bf "faultHit" && resClass mj == "ok" then ["completes-without-error"] else []) ++
+      (if bf "usable" then [] else ["reachable-commits-still-readable"]) ++
+      (if bf "retryErr" && resClass mj == "ok" then ["completes-without-error-once-the-fault-is-gone"] else []) ++
+      (if bf "retryErr" then [] else (judge afterRetry true).map (fun c => "after-retry:" ++ c)) ++
+      (if bf "usableRetry" then [] else ["after-retry:reachable-commits-still-readable"])
+    let agree := match m, mLow with
+      | .ok r, .ok r' => canonRepo r == canonRepo afterRetry || canonRepo r' == canonRepo afterRetry
+      | .ok r, _ => canonRepo r == canonRepo afterRetry
+      | _, _ => bf "retryErr"
+    return reply mj agree viol
   | "gc" =>
     -- `wrgl gc` / `wrgl prune` on a repository directory with transactions of several ages.
     -- Roots that must survive: every ref that is not the staged ref of an expired transaction
